@@ -53,6 +53,7 @@ class PV(NamedTuple):
     patch: str  # path of the diff
     expect: Optional[str]  # "*" = any new finding of the property; None = behaviour-preserving twin
     why: str = ""
+    may_be_inconclusive: bool = False  # a twin on which this check is recorded as giving no verdict (never a finding)
 
 
 def apply_unified_diff(patch_text: str, read):
@@ -180,7 +181,14 @@ def variants_for(pid: str) -> List[V]:
     # independent behaviour-preserving refactorings (of any property's code): no check may react
     for d in sorted((report.VERIF / "refactors").glob("C*-R*")):
         if (d / "patch.diff").exists():
-            vs.append(PV(f"refactors/{d.name}", str(d / "patch.diff"), None, "independent behaviour-preserving refactoring"))
+            nv = []
+            try:
+                nv = json.loads((d / "meta.json").read_text()).get("checks", {}).get("no_verdict", [])
+            except (OSError, ValueError):
+                pass
+            # a refactoring on which this check is *recorded* (refactors/RESULTS.md) as unable to follow the code stays in the
+            # corpus: it must never produce a finding, an honest "no verdict" is tolerated for it
+            vs.append(PV(f"refactors/{d.name}", str(d / "patch.diff"), None, "independent behaviour-preserving refactoring", pid in nv))
     return vs
 
 
@@ -211,6 +219,9 @@ def run(pid: str, base_ctx: report.Ctx) -> dict:
         new = [(r, k, m) for (r, k, m) in findings if k not in base_keys]
         new_inc = [u for u in info if u not in base_inc]
         if v.expect is None:
+            if getattr(v, "may_be_inconclusive", False) and not new:
+                results.append({"variant": vid, "status": "ok", "detail": "twin: no finding (recorded as 'no verdict' for this check)" if new_inc else "twin stayed silent"})
+                continue
             if new or new_inc:
                 failures.append(f"behaviour-preserving twin {vid} raised {[k for _, k, _ in new] + new_inc}")
                 results.append({"variant": vid, "status": "FAILED", "detail": "false alarm on a twin", "new": [k for _, k, _ in new], "inconclusive": new_inc})
